@@ -328,7 +328,8 @@ def run_c10(tier, seed):
                                'spec': 'sorted([MosFile…]) orders by numeric message ID', 'impl': {'ids': ids}})
         if len(oc.samples) < 3:
             oc.samples.append({'ids': h['ids'], 'n_docs': len(docs), 'permutations': len(perms)})
-    oc.exhaustive = True
+    oc.exhaustive = False
+    oc.extra['exhaustive_part'] = 'all permutations of each document list are enumerated (n <= 5 quick / 6 thorough: 720 sampled beyond); the lists themselves are sampled histories'
     oc.rule = ('every permutation (n <= %d) of the documents of small state-aware histories with message IDs of mixed '
                'digit counts, via strings / files / fake S3 keys unrelated to ID order; non-trivial = a non-identity '
                'permutation' % max_perm_len)
